@@ -9,7 +9,8 @@ verbatim.
 """
 
 MARKUPISH = ["# see <info>docs</info> for details", "label = '<b>bold</b>'", "pattern = '<fg=red>x</>'",
-             "# closing </comment> without opening", "weird = 'a < b > c'", "tag = '<unknown>'"]
+             "# closing </comment> without opening", "weird = 'a < b > c'", "tag = '<unknown>'",
+             "tail = 'done</warning>'", "head = '<warning>mind the' \\\n        ' gap</warning>'"]
 BAD_MARKUP = ["broken = '<info>a</comment>'", "colour = '<fg=nosuchcolour>x</>'", "# <error>unclosed", "esc = '\\\\<b>'", "esc2 = r'x \\</info> y'",
               "# opening only: <fg=nosuchcolour> never closed", "tint = '<bg=nope>'"]
 PLAIN_FILL = ["total = 0", "pair = f\"{n}\\\\{n}\"  # a backslash right in front of a replacement field", "drive = 'C:'  # a comment ending with a backslash: C:\\", "# lone trailing backslash \\", "joined = 1 + \\\n        2", "path = 'a' \\\n        'b'  # explicit line joining", "count = 1 + 1  # count", "name = 'été'", "values = [1, 2.5, None, True]", "pass",
